@@ -62,7 +62,7 @@ func sweepTails(format string) [][]byte {
 	case "msgpack":
 		return [][]byte{nil, rep(0, 16), rep(1, 40), append([]byte{0, 0, 0, 2}, rep(0xa1, 12)...)}
 	case "cbor":
-		return [][]byte{nil, rep(0, 16), rep(1, 40), append(rep(0x61, 8), 0xff, 0xff), {0x02, 0x41, 0x42, 0xff}}
+		return [][]byte{nil, rep(0, 16), rep(1, 40), {0, 0, 0, 0, 0, 0, 0, 2, 0x61, 0x62, 0xff, 0xff}, {0x02, 0x41, 0x42, 0xff}}
 	case "bencode":
 		return [][]byte{nil, []byte("e"), []byte(":abc"), []byte("1e"), []byte("1:ai2ee"), []byte("3:abce")}
 	case "asn1_ber":
